@@ -142,3 +142,82 @@ func c16R7(c *Ctx, rule string) {
 			"SetCodecPreferences writes a PayloadType (at "+strings.Join(bad, ", ")+"): a payload-type-less preference is frozen to the numbering of the list known when it was set (the locally registered one before negotiation) instead of following the offer")
 	}
 }
+
+// c16R9: the negotiated codec set - what every later answer is built from - grows only from remote descriptions that were
+// ACCEPTED: in SetRemoteDescription the call of MediaEngine.updateFromRemoteDescription is dominated by the success of
+// pc.setDescription (the signaling-state check). A refused description (a stray answer in stable) that still pushed its
+// codecs would make a later answer list codecs the offer it answers never contained.
+func c16R9(c *Ctx) {
+	r := c.R
+	const rule = "C16.R9"
+	srd := c.mustFunc(rule, "", "PeerConnection.SetRemoteDescription")
+	upd := c.mustFunc(rule, "", "MediaEngine.updateFromRemoteDescription")
+	setDesc := c.mustFunc(rule, "", "PeerConnection.setDescription")
+	if srd == nil || upd == nil || setDesc == nil {
+		return
+	}
+	g := c.P.GraphOf(srd)
+	info := g.Info
+	pos := c.P.Pos(srd.Decl.Pos())
+	find := func(fn *types.Func) []int {
+		var out []int
+		for _, n := range g.Nodes {
+			if n.Ast == nil {
+				continue
+			}
+			hit := false
+			core.InspectShallow(n.Ast, func(x ast.Node) bool {
+				if call, ok := x.(*ast.CallExpr); ok && core.IsCallTo(info, call, fn) {
+					hit = true
+				}
+				return true
+			})
+			if hit {
+				out = append(out, n.ID)
+			}
+		}
+		return out
+	}
+	us, ss := find(upd.Obj), find(setDesc.Obj)
+	key := "SetRemoteDescription|codecs-learnt-only-after-the-state-check"
+	if len(us) == 0 {
+		r.OK(rule, key, pos, "SetRemoteDescription does not update the MediaEngine itself")
+		return
+	}
+	if len(ss) != 1 {
+		r.Undecided(rule, key, pos, sprintf("expected one pc.setDescription call in SetRemoteDescription, found %d", len(ss)))
+		return
+	}
+	s := ss[0]
+	var errVar *types.Var
+	if as, ok := g.Nodes[s].Ast.(*ast.AssignStmt); ok && len(as.Lhs) == 1 {
+		errVar = core.VarOf(info, as.Lhs[0])
+	}
+	if errVar == nil {
+		r.Undecided(rule, key, c.P.Pos(g.PosOf(s)), "the result of pc.setDescription is not assigned to an error variable")
+		return
+	}
+	nilEdge := func(e core.Edge) bool {
+		if e.Cond == nil || e.Tag != nil || e.Branch == 0 {
+			return false
+		}
+		b, ok := ast.Unparen(e.Cond).(*ast.BinaryExpr)
+		if !ok || (b.Op != token.EQL && b.Op != token.NEQ) || (e.Branch == 1) != (b.Op == token.EQL) {
+			return false
+		}
+		return core.VarOf(info, b.X) == errVar && core.IsNilIdent(info, b.Y) || core.VarOf(info, b.Y) == errVar && core.IsNilIdent(info, b.X)
+	}
+	for i, u := range us {
+		ok := g.Dominated(u, map[int]bool{s: true})
+		if ok {
+			// from the state check, the update is reachable only through the edge that establishes its error nil
+			reach := g.Reach([]int{s}, nil, func(from, idx int, e core.Edge) bool { return nilEdge(e) })
+			if reach[u] && u != s {
+				ok = false
+			}
+		}
+		r.Cells++
+		r.Check(ok, rule, sprintf("%s#%d", key, i+1), c.P.Pos(g.PosOf(u)), "updateFromRemoteDescription runs only after pc.setDescription returned nil",
+			"SetRemoteDescription hands the description to MediaEngine.updateFromRemoteDescription before (or regardless of) the signaling-state check: a description that is then refused has already pushed its codecs into the negotiated set, and a later answer lists codecs its offer never contained")
+	}
+}
